@@ -306,6 +306,7 @@ func runC06(c *Ctx) {
 
 	// --- C06.close: every node handed back for closing is closed exactly once, outside the lock
 	c.ruleCloseOnce()
+	c.ruleCloserFirst("C06.close")
 
 	// --- C06.true
 	if fn := c.Fn("C06.true", PkgRoot, "Broker", "RemovePipelineAndNodes"); fn != nil {
